@@ -47,7 +47,13 @@ RULE = ("deterministic boundary corpus: instants at and +-1us/+-1ms around 1970-
         "second bucket in between, delete + re-create of the bucket, each followed by further inserts (listing + "
         "lookup of every listed id after every step), deterministic then seeded random; every scenario on "
         "memory, sqlite, peewee; non-trivial = an event with a sub-ms instant, a non-UTC offset, a duration of a "
-        "day or more, or nested data")
+        "day or more, or nested data.  Round 5: data with lone high / lone low surrogates (cut-off titles), astral code points, "
+        "NUL, U+2028 as values and keys, and data built from dict / list / str / int SUBCLASSES (OrderedDict, defaultdict, a list "
+        "subclass, str / int subclasses) at every depth - in the read-back scenarios and in the mutate-and-reread pass; timestamps "
+        "in PEP 495 zones beside an offset change (repeated hour with fold=1 and fold=0, its last second, after / before a gap, "
+        "half-hour change), ms-aligned and with sub-ms parts, singly and in bulk; histories with UNREAD acknowledged inserts "
+        "followed by a bulk insert that fails inside the engine (stale Bucket object of a deleted bucket, a bucket that never "
+        "existed, an id 2**63) and that the caller survives: every acknowledged id still names its event, no id handed out twice")
 
 Y2100 = 4102444800_000_000
 DAY = 86400_000_000
